@@ -429,6 +429,31 @@ def native_decode(chunk, struct, e, data):
 
 # ---------------------------------------------------------------- results -> obligations (with native replay)
 
+def _holds_vector(t):
+    """does a (fixed-size) struct type hold a std::vector in the C++ full codec (limited array / limited bytes)?"""
+    t = W.strip(t)
+    if not isinstance(t, W.Struct):
+        return False
+    for f in t.fields:
+        if isinstance(f.form, tuple) and f.form[0] == 'limited':
+            return True
+        if not f.bytes and f.form in ('plain', 'optional') and _holds_vector(f.type):
+            return True
+    return False
+
+
+def shape_fingerprint(t):
+    """structural class of a message type, used to key known findings of the C++ full codec"""
+    if t is None:
+        return None
+    for x in F.walk_types(t):
+        if isinstance(x, W.Struct):
+            for f in x.fields:
+                if f.form == 'optional' and not f.bytes and _holds_vector(f.type):
+                    return 'optional of a fixed struct that holds a limited array (std::vector member)'
+    return None
+
+
 def confirm_decode_violation(chunk, shape, e, v, L):
     """replay one llsym decode-side counterexample on the natively compiled code -> (reproduced?, text)"""
     hx = v.get('input_hex')
@@ -505,6 +530,11 @@ def to_obligations(prop, results, chunks, check, engine='E2-llsym', e_of=lambda 
                 o.signature = dict(check=check, cls=viol['cls'].replace('decode-', '').replace('encode-', ''), site=viol.get('site'))
                 if viol.get('fingerprint'):
                     o.signature['fingerprint'] = viol['fingerprint']
+                else:
+                    fam = dict((s.name, s) for s in chunk['shapes'])
+                    fp = shape_fingerprint(fam.get(shape))
+                    if fp:
+                        o.signature['fingerprint'] = fp
                 o.detail = '%s | %s' % (viol['kind'][:160], txt[:240])
                 o.witness = dict(shape=shape, endianness=e_of(r), input_hex=viol.get('input_hex'))
                 nrep += 1
